@@ -5,6 +5,14 @@
 
 package ir
 
+import (
+	"github.com/ogen-go/ogen/jsonschema"
+	"github.com/ogen-go/ogen/ogenregex"
+)
+
+var _ *jsonschema.Schema
+var _ ogenregex.Regexp
+
 //@ func (s SecurityRequirements) BitArrayLen() (r int)
 //@   ensures upper:  forall k in (0, len(s.Requirements)) :: len(s.Requirements[k]) <= r
 //@   ensures tight:  r == 0 || (exists k in (0, len(s.Requirements)) :: len(s.Requirements[k]) == r)
@@ -13,3 +21,19 @@ package ir
 //@   loop 0 invariant range: -1 <= rangeindex && rangeindex < len(s.Requirements)
 //@   loop 0 invariant upper: forall k in (0, rangeindex+1) :: len(s.Requirements[k]) <= r
 //@   loop 0 invariant tight: r == 0 || (exists k in (0, rangeindex+1) :: len(s.Requirements[k]) == r)
+
+// ---------------------------------------------------------------------------
+// C08 / C03 (pattern): the string validator of a schema with a pattern executes EXACTLY that pattern:
+// SetString compiles every non-empty pattern with ogenregex.Compile (whose contract - engine selection,
+// never approximated, String() == source - is proved in package ogenregex) and stores the result; no
+// pattern is skipped or replaced. A schema without a pattern leaves the validator's expression alone.
+// ---------------------------------------------------------------------------
+
+//@ use errors
+
+//@ func (v *Validators) SetString(schema *jsonschema.Schema) (err error)
+//@   requires schema: schema != nil
+//@   modifies v.String
+//@   ensures pattern:   err == nil && schema.Pattern != "" ==> v.String.Regex != nil && ogenregex.VerifSource(v.String.Regex) == schema.Pattern
+//@   ensures nopattern: schema.Pattern == "" ==> v.String.Regex == old(v.String.Regex)
+//@   ensures refused:   err != nil ==> schema.Pattern != ""
